@@ -18,7 +18,7 @@ func C18(r *core.Report) {
 		"R1 the result channel's capacity is len(jobs) of the very slice whose elements are launched (workers never block on it, so Wait returns and the channel is closed); " +
 		"R2 every path through a worker performs exactly one send attempt on the result channel; R3 the channel is closed only by the closer goroutine, after Wait; " +
 		"R4 every receive from the result channel either leads to the success return under err == nil or records the error in the slice that the failure return yields (no received failure is dropped), the success return's value comes from a received result, and no other success return exists; " +
-		"R5 findEpochNumberFromSignature maps the outcome to not-found only when all job errors are ErrNotFound and the per-epoch job classifies a failed sig-exists read as an error. R9 a hit is told from a miss by the error only: no generic function compares a value of the result type, and at every invocation of a job every return reachable from the nil-error branch is a success return (a job succeeding with the zero value, epoch 0, is a hit). R6 job independence - no return of a per-epoch job is decided by a condition reading state that the jobs themselves write (shared flags, counters): a job's verdict depends on its own epoch only. R10 ErrorSlice is opaque to errors.Is / errors.As (no Unwrap, Is or As method), so a mixed outcome is never classified as not-found by the callers. R11 every function that removes or replaces a loaded epoch also updates every other field of MultiEpoch that holds epochs or state derived from the epoch map (a cached sig-exists table), same rule as C09.R7. Not decided: scheduler fairness, termination of the jobs themselves."
+		"R5 findEpochNumberFromSignature maps the outcome to not-found only when all job errors are ErrNotFound and the per-epoch job classifies a failed sig-exists read as an error. R9 a hit is told from a miss by the error only: no generic function compares a value of the result type, and at every invocation of a job every return reachable from the nil-error branch is a success return (a job succeeding with the zero value, epoch 0, is a hit). R6 job independence - no return of a per-epoch job is decided by a condition reading state that the jobs themselves write (shared flags, counters): a job's verdict depends on its own epoch only. R10 ErrorSlice is opaque to errors.Is / errors.As (no Unwrap, Is or As method), so a mixed outcome is never classified as not-found by the callers. R11 every function that removes or replaces a loaded epoch also updates every other field of MultiEpoch that holds epochs or state derived from the epoch map (a cached sig-exists table), same rule as C09.R7. R9 also: the error bound at a job invocation is not reassigned before it is handed on. Not decided: scheduler fairness, termination of the jobs themselves."
 	f := r.Anchor("C18.R1", "main.FirstSuccess")
 	if f == nil {
 		return
